@@ -49,6 +49,7 @@ type expCase struct {
 	Spell   string    `json:"spell"`   // spelling class: simple | varied
 	Cache   string    `json:"cache"`   // cache mode of single-element entries: none | fresh | preload | reuse
 	Site    string    `json:"site"`    // where the root lives: "" (local file) | http
+	Flags   string    `json:"flags"`   // comma list: whole (whole-document schema documents), idsnamed
 }
 
 type docObs struct {
@@ -94,6 +95,7 @@ type expObs struct {
 	Elem     string     `json:"elem"` // single-element entries: pointer of the expanded element
 	Cache    string     `json:"cache"`
 	Site     string     `json:"site"`
+	Flags    string     `json:"flags"`
 	Cached   []AURL     `json:"cached"`   // documents known to be in the supplied cache before the call
 	SameFull bool       `json:"samefull"` // SkipThenFull: bytes equal to the direct full expansion
 	DefSame  bool       `json:"defsame"`  // definitions section of the output equals the input's
@@ -143,6 +145,12 @@ func layoutURL(class string, d int, prefix, rootFile, site string) string {
 			return p + "/w/r/" + rootFile + "?v=" + n
 		}
 		return "http://h.example/w/r/" + rootFile + "?v=" + n
+	case "otherport":
+		// the root's host on another port, below the root's directory
+		if site == "http" {
+			return "http://r.example:9090/w/r/sub/b" + n + ".json"
+		}
+		return "http://h.example:9090/w/r/sub/b" + n + ".json"
 	case "localfile":
 		// a local file whatever the root's site
 		return "file://" + prefix + "/w/f/b" + n + ".json"
@@ -316,11 +324,17 @@ type placed struct {
 
 // concretise builds the documents of a case.
 type concrete struct {
+	whole  []bool                   // per document: the document IS a schema (target of whole-document $refs)
 	urls   []string                 // per document
 	docs   []map[string]interface{} // per document
 	paths  [][]string               // per node: pointer tokens in its document
 	nodeOf []interface{}            // per node: its JSON object
 	detail []string
+}
+
+// verbOf: the operation of a path item that holds its parameter / response children (all seven in rotation)
+func verbOf(c *expCase, owner int) string {
+	return opNames[(c.Rot+owner)%len(opNames)]
 }
 
 func sectionOf(kind string) string {
@@ -339,7 +353,7 @@ func concretise(c *expCase) (*concrete, error) {
 	n := len(c.Nodes)
 	noFragOnly = false
 	for _, a := range c.Nodes {
-		if a.ID != "" && c.Entry != "" && !strings.HasPrefix(c.Entry, "Resolve") && expFlags.idsNamed {
+		if a.ID != "" && strings.Contains(c.Flags, "idsnamed") {
 			noFragOnly = true
 		}
 	}
@@ -349,7 +363,7 @@ func concretise(c *expCase) (*concrete, error) {
 			nd = a.Doc + 1
 		}
 	}
-	cc := &concrete{urls: make([]string, nd), docs: make([]map[string]interface{}, nd), paths: make([][]string, n+1), nodeOf: make([]interface{}, n+1)}
+	cc := &concrete{whole: make([]bool, nd), urls: make([]string, nd), docs: make([]map[string]interface{}, nd), paths: make([][]string, n+1), nodeOf: make([]interface{}, n+1)}
 	prefix, rootFile := rootLoc(c.Entry)
 	cc.urls[0] = siteOf(c.Site, prefix) + "/w/r/" + rootFile
 	for d := 1; d < nd; d++ {
@@ -393,11 +407,30 @@ func concretise(c *expCase) (*concrete, error) {
 				"items": []interface{}{map[string]interface{}{"title": "tuple"}}, "dependencies": map[string]interface{}{"a": []interface{}{"b"}}}
 		}
 	}
+	// documents (other than the root) whose only top-level element is a structured schema ARE that schema
+	wholeNode := make([]int, nd)
+	if strings.Contains(c.Flags, "whole") {
+		cnt := make([]int, nd)
+		for i, a := range c.Nodes {
+			if a.Owner == 0 {
+				cnt[a.Doc]++
+				wholeNode[a.Doc] = i + 1
+			}
+		}
+		for d := 1; d < nd; d++ {
+			a := c.Nodes[wholeNode[d]-1]
+			cc.whole[d] = cnt[d] == 1 && a.Kind == "s" && a.T != "ref"
+		}
+	}
 	// 1. pointer tokens of every node (owners have smaller indices)
 	kidIdx := make([]int, n+1)
 	usedPos := make([]map[string]bool, n+1)
 	for i := 1; i <= n; i++ {
 		a := c.Nodes[i-1]
+		if a.Owner == 0 && cc.whole[a.Doc] {
+			cc.paths[i] = []string{}
+			continue
+		}
 		if a.Owner == 0 {
 			name := nodeName(i, c.Names, c.Rot)
 			if a.Kind == "i" {
@@ -422,7 +455,7 @@ func concretise(c *expCase) (*concrete, error) {
 					rel = []string{"parameters", "0"}
 					usedPos[a.Owner]["parameters"] = true
 				} else if !usedPos[a.Owner]["get/parameters"] {
-					rel = []string{"get", "parameters", "0"}
+					rel = []string{verbOf(c, a.Owner), "parameters", "0"}
 					usedPos[a.Owner]["get/parameters"] = true
 				} else {
 					rel = []string{"parameters", "0"}
@@ -441,7 +474,7 @@ func concretise(c *expCase) (*concrete, error) {
 					}
 				}
 				usedPos[a.Owner]["r"+code] = true
-				rel = []string{"get", "responses", code}
+				rel = []string{verbOf(c, a.Owner), "responses", code}
 			}
 		default: // schema
 		posLoop:
@@ -530,7 +563,7 @@ func concretise(c *expCase) (*concrete, error) {
 				continue
 			}
 			for d := 0; d < nd; d++ {
-				if d == a.Doc {
+				if d == a.Doc || cc.whole[d] {
 					continue
 				}
 				lab := "decoy" + strconv.Itoa(i) + "d" + strconv.Itoa(d)
@@ -553,6 +586,15 @@ func concretise(c *expCase) (*concrete, error) {
 	for i := 1; i <= n; i++ {
 		a := c.Nodes[i-1]
 		var root interface{} = cc.docs[a.Doc]
+		if len(cc.paths[i]) == 0 {
+			// the document is this schema: keep what was put into the document so far next to its members
+			if m, ok := cc.nodeOf[i].(map[string]interface{}); ok {
+				for k, v := range m {
+					cc.docs[a.Doc][k] = v
+				}
+			}
+			continue
+		}
 		if err := setAt(root, cc.paths[i], cc.nodeOf[i]); err != nil {
 			return nil, fmt.Errorf("node %d at %v: %w", i, cc.paths[i], err)
 		}
@@ -587,7 +629,7 @@ func idFor(class string, i int) string {
 	return class
 }
 
-var faultClasses = []string{"noptr", "nodoc", "string", "number", "bool", "array", "casevar", "thrubool", "thrutuple", "thrudeps"}
+var faultClasses = []string{"noptr", "nodoc", "string", "number", "bool", "array", "casevar", "thrubool", "thrutuple", "thrudeps", "unset"}
 
 // oddTargets (-oddtargets): targets that exist but are not objects of the expected kind in a way
 // the error discipline (C08) says nothing about: JSON null, an empty object
@@ -611,6 +653,9 @@ func danglingRef(cc *concrete, c *expCase, i int) string {
 		return "nulldoc" + strconv.Itoa(i) + ".json"
 	case "string", "number", "bool", "array", "null", "emptyobj":
 		return "#/x-bad-" + fault
+	case "unset":
+		// a member the (typed) definition could have but does not
+		return "#/definitions/XBadUnions/not"
 	case "thrubool":
 		return "#/definitions/XBadUnions/additionalProperties/properties/x"
 	case "thrutuple":
@@ -748,6 +793,7 @@ var expFlags struct {
 	oddTargets bool
 	allFaults  bool
 	decoys     bool
+	wholeDocs  bool
 	site       string
 	idsNamed   bool
 }
@@ -768,6 +814,7 @@ func init() {
 			fs.BoolVar(&expFlags.allFaults, "allfaults", false, "graphs with exactly one dangling ref are run once per fault class")
 			fs.BoolVar(&expFlags.oddTargets, "oddtargets", false, "dangling refs point at JSON null / an empty object instead (C04 only)")
 			fs.StringVar(&expFlags.site, "site", "", "site of the root document: empty (local file) or http")
+			fs.BoolVar(&expFlags.wholeDocs, "wholedocs", false, "a document whose only top-level element is a structured schema IS that schema (whole-document $refs)")
 			fs.BoolVar(&expFlags.idsNamed, "idsnamed", false, "with -ids: references into the own document name it instead of being fragment-only")
 			fs.StringVar(&expFlags.ids, "ids", "", "comma list of id classes given (in rotation) to the structured schemas: abs,relfile,reldir,frag")
 		},
@@ -885,6 +932,17 @@ func cross(id int, nodes0 []absNode) []*expCase {
 	return out
 }
 
+func caseFlags() string {
+	var fl []string
+	if expFlags.wholeDocs {
+		fl = append(fl, "whole")
+	}
+	if expFlags.idsNamed {
+		fl = append(fl, "idsnamed")
+	}
+	return strings.Join(fl, ",")
+}
+
 // withFaults fixes the fault class of every dangling ref in the case record itself, so that a
 // recorded case replays identically whatever flags the replaying worker is given.
 func withFaults(nodes []absNode, rot int) []absNode {
@@ -910,7 +968,7 @@ func cross1(id int, nodes []absNode) []*expCase {
 				for _, fsx0 := range crossTail() {
 					fsx, entry, cache := fsx0[0], fsx0[1], fsx0[2]
 					c := &expCase{Case: id, Nodes: withFaults(withIDs(nodes, rot), rot), Layout: strings.Split(lay, "+"), Rot: rot,
-						Entry: entry, Reps: expFlags.reps, Names: expFlags.names, Spell: expFlags.spell, Site: expFlags.site}
+						Entry: entry, Reps: expFlags.reps, Names: expFlags.names, Spell: expFlags.spell, Site: expFlags.site, Flags: caseFlags()}
 					if strings.HasPrefix(cache, "preload:") {
 						c.Cache = "preload"
 						skipPre := false
@@ -1084,6 +1142,6 @@ func expSlim(v interface{}) interface{} {
 		"docs": o.Docs, "nodes": nodes, "entries": o.Entries, "loads": o.Loads, "loadok": o.LoadOK,
 		"det": o.Det, "rootsame": o.RootSame, "optssame": o.OptsSame, "abstract": o.Abstract,
 		"failurl": o.FailURL, "preload": o.Preload, "collide": o.Collide, "events": o.Events,
-		"elem": o.Elem, "cache": o.Cache, "site": o.Site, "cached": o.Cached, "samefull": o.SameFull, "defsame": o.DefSame,
+		"elem": o.Elem, "cache": o.Cache, "site": o.Site, "flags": o.Flags, "cached": o.Cached, "samefull": o.SameFull, "defsame": o.DefSame,
 	}
 }
